@@ -28,7 +28,7 @@ type C16Scenario struct {
 
 func (*C16a) ID() string { return "C16" }
 func (*C16a) Rule() string {
-	return "(a) worlds as for C11 (npm/relax and Maven/override, default scoping options, MaxUpgrades=0) with >= 2 vulnerabilities favoured (one goroutine per vulnerability, more for introduced ones); each world is executed under the run-to-completion schedule (what instantly answering mocks give) and under 8 (quick) / 16 (thorough) seeded schedule vectors, each `reps` times; the complete list returned by the strategy's ComputePatches (overlay export; nothing chosen, nothing written) and the in-scope vulnerability list must be deep-equal in all runs, sorted by Patch.Compare with no two adjacent equal elements; additionally the real FixVulns runs under the first three schedules and its Result must be equal; built with -race: any race report is a violation; scheduling points: every registry call of the deps.dev resolver and every matcher call, channel hand-overs sequenced by quiescence; non-trivial = at least 2 patch goroutines and at least 2 distinct interleavings (distinct sequences of (actor, call)) observed; distinct = distinct scenario JSON"
+	return "(a) worlds as for C11 (npm/relax and Maven/override, default scoping options, MaxUpgrades=0) with >= 2 vulnerabilities favoured (one goroutine per vulnerability, more for introduced ones); each world is executed under the run-to-completion schedule (what instantly answering mocks give) and under 8 (quick) / 16 (thorough) seeded schedule vectors, each `reps` times; the complete list returned by the strategy's ComputePatches (overlay export; nothing chosen, nothing written) and the in-scope vulnerability list must be deep-equal in all runs, sorted by Patch.Compare with no two adjacent equal elements; additionally one free-running computation (no scheduler) must return the same list, and the real FixVulns runs under the first three schedules and its Result must be equal; built with -race: any race report is a violation; scheduling points: every registry call of the deps.dev resolver and every matcher call, channel hand-overs sequenced by quiescence; non-trivial = at least 2 patch goroutines and at least 2 distinct interleavings (distinct sequences of (actor, call)) observed; distinct = distinct scenario JSON"
 }
 
 func (*C16a) Gen(rt *rapid.T, tier string) any {
@@ -139,6 +139,16 @@ func (c *C16a) Run(t *testing.T, scn any) *sim.Outcome {
 				}
 				out.Violate(class, class+":"+w.Sys, "the patch computation returns different lists under the %s and under the %s (repetition %d):\n%s\n--\n%s\n; %s", refLabel, label(si), r, ref, d, ctx)
 			}
+		}
+	}
+	// one free-running computation (no scheduler: the goroutines run as the Go runtime likes), so
+	// that the race detector also sees sharing that the one-at-a-time scheduler serialises
+	n++
+	if o := Execute(t, w, RunSpec{Kind: "all", Dir: filepath.Join(dir, fmt.Sprintf("r%d", n)), Manifest: &w.Manifest, Opts: &opts, Pass: true}); !o.Over {
+		out.Executions++
+		if d := digest(o); d != ref && !bad {
+			bad = true
+			out.Violate("nondeterministic", "nondeterministic:"+w.Sys+":free-running", "the free-running patch computation returns a different list than the %s:\n%s\n--\n%s\n; %s", refLabel, ref, d, ctx)
 		}
 	}
 	// the real FixVulns, end to end, under the first three schedules
